@@ -458,10 +458,6 @@ fn tile_file(
 /// decode the three files of one map.
 pub fn decode(kt: Kt, htx: &[u8], key: &[u8], val: &[u8]) -> Decoded {
     let mut d = Decoded::default();
-    if mode() == Mode::Off {
-        // the crate is built with another record format or another hash: nothing to decode
-        return d;
-    }
     let sig = kt.signature();
     // ---- headers
     if (htx.len() as u64) < HTX_HEADER {
@@ -497,6 +493,11 @@ pub fn decode(kt: Kt, htx: &[u8], key: &[u8], val: &[u8]) -> Decoded {
     let key_ok = check_dat_header(key, b"abysdbK\0", &sig, "key", &mut d.header);
     let val_ok = check_dat_header(val, b"abysdbV\0", &sig, "val", &mut d.header);
     if !key_ok || !val_ok {
+        return d;
+    }
+    if mode() == Mode::Off {
+        // the crate is built with another record format or another hash: only the table header
+        // (bucket count, item count) means the same; the records are not walked
         return d;
     }
     // ---- chains
